@@ -106,6 +106,6 @@ Example C19_json_key_collision_refuted :
   let x := {| sc_min := 48; sc_max := 48; sc_sum := 48; sc_total := 1; sc_ne := 0; sc_samples := [] |}%Z in
   let y := {| sc_min := 32; sc_max := 32; sc_sum := 32; sc_total := 1; sc_ne := 0; sc_samples := [] |}%Z in
   let a : agg := (0%Z, [(1, x); (2, y)]%N) in
-  let codec := fun b : N => if (b =? 1)%N || (b =? 2)%N then 3%N else b in
+  let codec := fun b : N => if orb (b =? 1)%N (b =? 2)%N then 3%N else b in
   length (snd (rekey codec a)) = 1%nat /\ length (snd (rekey (fun b => b) a)) = 2%nat.
 Proof. vm_compute. split; reflexivity. Qed.
